@@ -282,3 +282,20 @@ PROPS["C16"] = {
     "level_text": "Bounded symbolic model checking of the Go directive implementations with the value's bytes symbolic; decodability is checked by independent reference decoders executed by the same engine. Only the Go half of the property is claimed.",
     "level_note": "json and the JS-side directives are outside the technique's reach here. Trusted: go/ssa, gosym, z3, stdlib models (validated natively), reference decoders.",
 }
+
+# ---------------------------------------------------------------- C14
+PROPS["C14"] = {
+    "jobs": [
+        Job("soyjs", "H_jsLiteral", "0..5,0..2,0", workers=16),
+        Job("soyjs", "H_jsLiteral", "0..5,0..1,1..5", workers=16),
+        Job("soyjs", "H_jsStruct", "0..2,false", workers=4),
+        Job("soyjs", "H_jsStruct", "0..2,true", workers=4),
+        Job("soyjs", "H_jsLiteral", "0..5,3,0", tier="thorough", workers=16),
+    ],
+    "bounds_quick": "string emission at 6 sites (raw text, string literal, map literal key, css suffix, global string value, message text) with <= 2 symbolic ASCII bytes (all 128 values incl. quotes, backslash, controls, line terminators), and <= 1 byte combined with U+00E9, U+2028, U+2029, U+1F600 or the text </script>: the emitted token is one well-formed, script-safe literal that decodes to the original characters; structure of the generated files for 3 bundles x 2 formatters (one function per template under its qualified/exported name, balanced brackets outside literals, identifier-shaped variable names)",
+    "bounds_thorough": "3 symbolic bytes per site",
+    "outside": "full-script syntactic validity: needs a JavaScript parser inside the solver loop, which is not available; only literal tokens and the bracket/definition structure are decided. Whole-template generation with symbolic text through the parser.",
+    "assumptions": ["refJSLiteral (harness): reference decoder of ECMAScript string literal bodies"],
+    "level_text": "Bounded symbolic model checking of the generator's literal emission: the characters of each template-originated string are symbolic and the emitted token is decoded by a reference ECMAScript literal decoder. Well-formedness of the whole script is only partly covered (structure checks).",
+    "level_note": "Narrowed: literals and structure, not the whole-script grammar. Trusted: go/ssa, gosym, z3, text/template.JSEscape model (validated natively), reference decoder.",
+}
